@@ -65,8 +65,15 @@ impl FunctionDescription {
         let return_type = F::return_type();
         let trampoline_ptr = &F::TRAMPOLINE as *const _ as *const *const u8;
         let trampoline = unsafe { *trampoline_ptr };
-        let ir_function = func.ir_function();
         let pointer = func.ptr();
+
+        // The IR function keeps the address of the function object, so it
+        // must be made from the object at its final place, not from the
+        // local that is moved away here.
+        let ir_function = (**pointer)
+            .downcast_ref::<F>()
+            .expect("the pointer was made from a value of type F")
+            .ir_function();
 
         Self {
             parameter_types,
